@@ -9,7 +9,7 @@ from harness.pool import run_cases
 INT_TYPES = sorted(enc.INT)
 DATA_TYPES = [enc.VSTR, enc.OSTR, enc.USTR, enc.DOMAIN]
 ALL_TYPES = INT_TYPES + [enc.BOOLEAN, enc.REAL32, enc.REAL64] + DATA_TYPES
-ACCESS = ["rw", "ro", "wo", "const"]
+ACCESS = ["rw", "ro", "wo", "const", "rwr", "rww"]
 
 
 def rand_value(rng, dt, n=None):
@@ -147,7 +147,21 @@ def gen_case(rng, focus):
                                "ok_ul", "var_sub"])
         else:
             pick = rng.choice(["ok_dl", "ok_dl", "ok_ul", "ok_ul", "ok_ul", "garbage", "restart",
-                               "block_ul", "missing_sub", "wrong_len", "toggle_ul"])
+                               "block_ul", "missing_sub", "wrong_len", "toggle_ul", "cross"])
+        if pick == "cross":
+            # a segment of the other direction, carrying the toggle bit the server expects next, in the
+            # middle of a segmented transfer
+            k = rng.randrange(0, 3)
+            if rng.random() < 0.5:
+                script.append({"k": "ul", "idx": idx, "sub": sub, "stop_after": k})
+                script.append({"k": "raw", "d": [((k % 2) << 4) | (4 << 1) | rng.choice([0, 1]), 1, 2, 3, 0, 0, 0, 0]})
+            else:
+                it = dl_item(rng, idx, sub, rand_bytes_for(rng, enc.DOMAIN, rng.randrange(15, 40)), force_seg=True)
+                it["stop_after"] = k
+                script.append(it)
+                script.append({"k": "raw", "d": [0x60 | ((k % 2) << 4), 0, 0, 0, 0, 0, 0, 0]})
+            script.append({"k": "ul", "idx": idx, "sub": sub})
+            continue
         if pick == "ok_ul":
             script.append({"k": "ul", "idx": idx, "sub": sub})
         elif pick == "block_ul":
